@@ -159,13 +159,20 @@ func Verif_C06_Dispatch() {
 	// gb either renders as it goes, or collects and renders only in its deferred callback
 	onlyDefer := verifsym.Bool()
 	if onlyDefer {
-		vSet("gb", pp, "A", vActNothing)
+		// two callbacks made from the same function literal (one per type)
+		vSet("gb", pp, "A", vActDeferOK)
 		vSet("gb", pp, "alias_C", vActNothing)
 	} else {
 		vSet("gb", pp, "A", vActRender)
 		vSet("gb", pp, "alias_C", vActRender)
 	}
-	vSet("gb", pp, "B", vActDeferOK)
+	// symbolically, the deferred callback registers a further callback while it runs
+	nested := verifsym.Bool()
+	if nested {
+		vSet("gb", pp, "B", vActDeferNested)
+	} else {
+		vSet("gb", pp, "B", vActDeferOK)
+	}
 	err := w.exec(false, true, vLevelTags("ga", lg), vProtoA(), &vGenB{})
 	verifsym.Assert(err == nil, "Execute fails")
 
@@ -227,11 +234,19 @@ func Verif_C06_Dispatch() {
 	verifsym.Assert(count("gb:gen:"+pp+".A:") == 1 && count("gb:gen:"+pp+".B:") == 1, "GenerateType(gb, ...) not called exactly once per enabled named type")
 	verifsym.Assert(count("gb:gen:"+pp+".D:") == 0, "GenerateType called for a type that is not enabled")
 	verifsym.Assert(count("gb:gen:"+pp+".alias_C:") == 1 && count("gb:gen:"+pp+".C:") == 0, "alias type not dispatched to GenerateAliasType exactly once")
-	verifsym.Assert(count("gb:defer:") == 1, "deferred callback did not run exactly once")
+	wantDefers := 1
+	if onlyDefer {
+		wantDefers = 2
+		verifsym.Assert(count("gb:defer:"+pp+".A") == 1, "deferred callback did not run exactly once")
+	}
+	verifsym.Assert(count("gb:defer:"+pp+".B") == 1 && count("gb:defer:") == wantDefers, "deferred callback did not run exactly once")
+	if nested {
+		verifsym.Assert(count("gb:defer2:") == 1, "a callback registered with Defer from inside a deferred callback did not run exactly once")
+	}
 	// the deferred callback ran after the last gb GenerateType
 	seenDefer := false
 	for _, l := range vState.log {
-		if vHasPrefix(l, "gb:defer:") {
+		if vHasPrefix(l, "gb:defer:") || vHasPrefix(l, "gb:defer2:") {
 			seenDefer = true
 		} else if vHasPrefix(l, "gb:gen:") {
 			verifsym.Assert(!seenDefer, "a deferred callback ran before the package's last GenerateType")
@@ -240,6 +255,9 @@ func Verif_C06_Dispatch() {
 	// ... and before the file was written: its rendering is in the file
 	d, ok := verifsym.FSGet(vGenFile(w, "p", "gb"))
 	verifsym.Assert(ok && vHasSub(d, "deferred_B_gb"), "the file was written before the deferred callback ran")
+	if nested {
+		verifsym.Assert(ok && vHasSub(d, "nested_B_gb"), "the file was written before a callback registered from inside a deferred callback ran")
+	}
 	verifsym.Observe("log", vState.log)
 	verifsym.Reach("end")
 }
